@@ -96,3 +96,34 @@ func FNV(b []byte) uint64 {
 	}
 	return h
 }
+
+// Debug ring: free-form component logs kept for humans (not hashed).
+var debugOn bool
+
+// SetDebug switches the debug ring on (replay mode).
+func SetDebug(on bool) { debugOn = on }
+
+// DebugEnabled reports whether component logs are being kept.
+func DebugEnabled() bool { return debugOn }
+
+// Debugf appends to the debug ring of the running simulation.
+func Debugf(format string, args ...any) {
+	if !debugOn {
+		return
+	}
+	s := active.Load()
+	if s == nil {
+		return
+	}
+	node := ""
+	if g := curG(); g != nil && g.sched == s {
+		node = g.node
+	}
+	line := fmt.Sprintf("t=%d [%s] ", int64(timeSince(s)), node) + fmt.Sprintf(format, args...)
+	s.mu.Lock()
+	s.debug = append(s.debug, line)
+	if len(s.debug) > 4000 {
+		s.debug = s.debug[len(s.debug)-2000:]
+	}
+	s.mu.Unlock()
+}
